@@ -207,6 +207,7 @@ type pFnCtx struct {
 	nWhile   int
 	nTmp     int
 	consts   map[string]*big.Int // function-local constants
+	loopCall map[ast.Node]string // loops already translated (a continuation can be rendered several times)
 }
 
 func pIndent(n int) string { return strings.Repeat("  ", n) }
@@ -1112,6 +1113,9 @@ func (fc *pFnCtx) rangeLoop(x *ast.RangeStmt, env *pEnv, ind int, k pK) (string,
 	if x.Tok != token.DEFINE && !(x.Key == nil && x.Value == nil) {
 		return "", fmt.Errorf("range with `=`")
 	}
+	if c, ok := fc.loopCall[x]; ok {
+		return c, nil
+	}
 	xs, xt, xb, err := fc.expr(x.X, env, "")
 	if err != nil {
 		return "", err
@@ -1120,6 +1124,7 @@ func (fc *pFnCtx) rangeLoop(x *ast.RangeStmt, env *pEnv, ind int, k pK) (string,
 		return "", fmt.Errorf("range over %s", xt)
 	}
 	fc.nLoop++
+	num := fc.nLoop
 	name := fmt.Sprintf("%s_loop%d", fc.info.lean, fc.nLoop)
 	keyN, valN := fmt.Sprintf("i%d_", fc.nLoop), fmt.Sprintf("b%d_", fc.nLoop)
 	if id, ok := x.Key.(*ast.Ident); ok && id.Name != "_" {
@@ -1177,12 +1182,16 @@ func (fc *pFnCtx) rangeLoop(x *ast.RangeStmt, env *pEnv, ind int, k pK) (string,
 	}
 	pats := strings.Join(append([]string{keyN}, state...), ", ")
 	def := fmt.Sprintf("/-- loop %d of `%s`: `for %s, %s := range %s` (remaining bytes, index, loop-carried variables) -/\ndef %s %s : %s → %s\n  | [], %s =>\n      %s\n  | %s :: %s, %s =>\n      %s\n",
-		fc.nLoop, fc.spec.name, keyN, valN, pSrc(x.X), name, fc.binders(fixed, env), sig, fc.info.retType(), pats, after, valN, restN, pats, body)
+		num, fc.spec.name, keyN, valN, pSrc(x.X), name, fc.binders(fixed, env), sig, fc.info.retType(), pats, after, valN, restN, pats, body)
 	fc.aux = append(fc.aux, def)
-	return call(env, xs, "(0 : Int)"), nil
+	fc.loopCall[x] = call(env, xs, "(0 : Int)")
+	return fc.loopCall[x], nil
 }
 
 func (fc *pFnCtx) forLoop(x *ast.ForStmt, env *pEnv, ind int, k pK) (string, error) {
+	if c, ok := fc.loopCall[x]; ok {
+		return c, nil
+	}
 	if x.Init == nil && x.Post == nil && x.Cond != nil {
 		return fc.whileLoop(x, env, ind, k)
 	}
@@ -1233,6 +1242,7 @@ func (fc *pFnCtx) forLoop(x *ast.ForStmt, env *pEnv, ind int, k pK) (string, err
 		return "", fmt.Errorf("for-loop counter must be an int with total bounds")
 	}
 	fc.nLoop++
+	num := fc.nLoop
 	name := fmt.Sprintf("%s_loop%d", fc.info.lean, fc.nLoop)
 	fuelN := fmt.Sprintf("fuel%d_", fc.nLoop)
 	call := func(fuelArg, idxArg string) string {
@@ -1272,9 +1282,10 @@ func (fc *pFnCtx) forLoop(x *ast.ForStmt, env *pEnv, ind int, k pK) (string, err
 	}
 	pats := strings.Join(append([]string{iv.Name}, state...), ", ")
 	def := fmt.Sprintf("/-- loop %d of `%s`: `for %s := …; %s < …; %s++` (iterations left = bound - %s, counter, loop-carried variables) -/\ndef %s %s : %s → %s\n  | 0, %s =>\n      %s\n  | %s + 1, %s =>\n      %s\n",
-		fc.nLoop, fc.spec.name, iv.Name, iv.Name, iv.Name, iv.Name, name, fc.binders(fixed, env), sig, fc.info.retType(), pats, after, fuelN, pats, body)
+		num, fc.spec.name, iv.Name, iv.Name, iv.Name, iv.Name, name, fc.binders(fixed, env), sig, fc.info.retType(), pats, after, fuelN, pats, body)
 	fc.aux = append(fc.aux, def)
-	return call("("+bs0+" - "+as0+").toNat", as0), nil
+	fc.loopCall[x] = call("("+bs0+" - "+as0+").toNat", as0)
+	return fc.loopCall[x], nil
 }
 
 func (fc *pFnCtx) whileLoop(x *ast.ForStmt, env *pEnv, ind int, k pK) (string, error) {
@@ -1285,6 +1296,7 @@ func (fc *pFnCtx) whileLoop(x *ast.ForStmt, env *pEnv, ind int, k pK) (string, e
 	fc.nWhile++
 	fixed, state := fc.loopSplit(x.Body.List, env)
 	fc.nLoop++
+	num := fc.nLoop
 	name := fmt.Sprintf("%s_loop%d", fc.info.lean, fc.nLoop)
 	fuelN := fmt.Sprintf("fuel%d_", fc.nLoop)
 	call := func(fuelArg string) string {
@@ -1324,9 +1336,10 @@ func (fc *pFnCtx) whileLoop(x *ast.ForStmt, env *pEnv, ind int, k pK) (string, e
 		p0, p1 = "0, "+strings.Join(pUnderscore(len(state)), ", "), p1+", "+pats
 	}
 	def := fmt.Sprintf("/-- loop %d of `%s`: `for cond {…}` on explicit fuel (out of fuel = `Res.diverge`) -/\ndef %s %s : %s → %s\n  | %s => Res.diverge\n  | %s =>\n      %s\n",
-		fc.nLoop, fc.spec.name, name, fc.binders(fixed, env), sig, fc.info.retType(), p0, p1, step)
+		num, fc.spec.name, name, fc.binders(fixed, env), sig, fc.info.retType(), p0, p1, step)
 	fc.aux = append(fc.aux, def)
-	return call("(" + fuelExpr + ")"), nil
+	fc.loopCall[x] = call("(" + fuelExpr + ")")
+	return fc.loopCall[x], nil
 }
 
 func pUnderscore(n int) []string {
@@ -1367,7 +1380,7 @@ func (tr *pureTr) function(sp pureSpec) error {
 		return err
 	}
 	info := &pureFnInfo{lean: sp.lean}
-	fc := &pFnCtx{tr: tr, spec: sp, dir: sp.dir, info: info, consts: map[string]*big.Int{}}
+	fc := &pFnCtx{tr: tr, spec: sp, dir: sp.dir, info: info, consts: map[string]*big.Int{}, loopCall: map[ast.Node]string{}}
 	env := &pEnv{vars: map[string]pTy{}}
 	var binders []string
 	for _, f := range fd.Type.Params.List {
@@ -1566,6 +1579,15 @@ func init() {
 		fns: []pureSpec{
 			{dir: ".", name: "validHeaderFieldByte", lean: "validHeaderFieldByte"},
 			{dir: ".", name: "bodyAllowedForStatus", lean: "bodyAllowedForStatus"},
+		},
+	})
+	registerPure(pureModule{
+		name: "PureHttp",
+		fns: []pureSpec{
+			{dir: ".", name: "isTokenBoundary", lean: "isTokenBoundary"},
+			{dir: ".", name: "stringContainsCTLByte", lean: "stringContainsCTLByte"},
+			{dir: ".", name: "isASCIILetter", lean: "isASCIILetter"},
+			{dir: ".", name: "trim", lean: "trim", fuel: []string{"s.length + 1", "s.length + 1"}},
 		},
 	})
 	registerPure(pureModule{
